@@ -437,5 +437,34 @@ def peerIdOf (c : Cfg) (n : Conn) : PeerId :=
 def outcomeC (q : Quirks) (c : Cfg) (e : Env) (n : Conn) : Outcome :=
   outcome q c e (peerIdOf c n)
 
+/-! ## Configuration file (`Config.from_file`) -/
+
+/-- The four policy options as the `tcpcl:` section of a configuration file gives them:
+    `none` = key not in the file (or no such section); for `require_tls`, `some none` = `null`.
+    Values are of the declared types (booleans). -/
+structure CfgFile where
+  tlsEnable : Option Bool
+  requireTls : Option (Option Bool)
+  requireHost : Option Bool
+  requireNode : Option Bool
+  deriving DecidableEq, Repr, Inhabited
+
+/-- Defaults of the `Config` dataclass: `tls_enable = True`, `require_tls = None`,
+    `require_host_authn = False`, `require_node_authn = False`. -/
+def defaultTlsEnable : Bool := true
+def defaultRequireTls : Option Bool := none
+def defaultRequireHost : Bool := false
+def defaultRequireNode : Bool := false
+
+/-- `Config().from_file(f)` on the policy options:
+    `if fld.name in cldat: setattr(self, fld.name, cldat[fld.name])` – a key that is present wins
+    whatever its value (`false` and `null` included), an absent key keeps the default. -/
+def loadFile (passive : Bool) (f : CfgFile) : Cfg :=
+  { passive := passive
+    tlsEnable := match f.tlsEnable with | some v => v | none => defaultTlsEnable
+    requireTls := match f.requireTls with | some v => v | none => defaultRequireTls
+    requireHost := match f.requireHost with | some v => v | none => defaultRequireHost
+    requireNode := match f.requireNode with | some v => v | none => defaultRequireNode }
+
 end TlsPolicy
 end DtnVerif
